@@ -43,9 +43,11 @@ def handleC44 (j : Json) : Except String Verdict := do
       match lookupIdx idx id with
       | none => if !rs.isEmpty then return .mismatch "recv-unadmitted" s!"client {id} received {rs} without being admitted"
       | some _ =>
-        let written := s.evs.filterMap fun e => if e.k == "write" && e.c == id && e.ok then some e.v else none
-        if !isPrefix rs written then
-          return .mismatch "recv-vs-write" s!"client {id} received {rs} but the server wrote {written}"
+        -- every write the server attempted, including one that returned an error: an error (peer closing, context
+        -- cancelled while flushing) does not mean the bytes did not reach the peer, and it is the handler's last write
+        let attempted := s.evs.filterMap fun e => if e.k == "write" && e.c == id then some e.v else none
+        if !isPrefix rs attempted then
+          return .mismatch "recv-vs-write" s!"client {id} received {rs} but the server only attempted to write {attempted}"
     return .ok
 
 def main : IO Unit := runDriver handleC44
